@@ -572,15 +572,17 @@ class C03(ResolveSpec):
     pid = "C03"
     model_imports = MODEL_IMPORTS + ["ShowReq"]
     coq_files = ["Properties/C03.v"]
-    theorems = ["C03_requirements_solve_the_policy_equations_partial", "C03_the_solution_is_unique_partial"]
-    level_text = ("Theorems about the model of resolve_requirements for EVERY criteria table, dependency graph and policy table: the "
-                  "computed demand vector satisfies the documented equations (own policy criteria replace the demand; otherwise the "
-                  "union of: safe-to-deploy for top-level crates, what each workspace member passes to its dev-dependencies one level "
-                  "deep, and what every dependent passes on along normal/build edges — its dependency-criteria entry for that "
-                  "dependency, possibly empty, else its own demand), and the equations have exactly one solution, so the computed one "
-                  "is the least set satisfying the rules. `_partial`: under the executable side condition topo_ok (the order "
-                  "DepGraph::new produced lists each crate once, before its normal/build dependencies); that the DFS delivers such an "
-                  "order and the documented roots (roots_ok) is not proved but evaluated inside Coq on every generated graph.")
+    theorems = ["C03_order_is_topological", "C03_roots_are_the_top_level_crates", "C03_requirements_solve_the_policy_equations",
+                "C03_the_solution_is_unique", "C03_equations_for_any_ordered_graph"]
+    level_text = ("Theorems about the model of DepGraph::new + resolve_requirements for EVERY criteria table, dependency graph and "
+                  "policy table whose normal/build edges are acyclic and in range (cargo's guarantee; dev edges may cycle): the two DFS "
+                  "passes list each crate once and after all its normal/build dependencies (post-order invariant with a gray set, fuel "
+                  "shown sufficient by counting unvisited nodes); the roots are exactly the workspace members nothing in the normal build "
+                  "graph depends on; the computed demand vector satisfies the documented equations (own policy criteria replace the "
+                  "demand; otherwise the union of safe-to-deploy for top-level crates, what each workspace member passes to its "
+                  "dev-dependencies one level deep, and what every dependent passes on along normal/build edges — its "
+                  "dependency-criteria entry for that dependency, possibly empty, else its own demand), and the equations have exactly "
+                  "one solution, so the computed one is the least set satisfying the rules. No side condition is left unproved.")
     level_note = ("Model = coq/DepGraph.v (depgraph_new: two DFS passes, roots, dev-only; resolve_requirements: dev pass + reverse "
                   "topological propagation). The implementation's topo order, roots, dev-only flags and demand vector are compared "
                   "with the model's on every case; an independent fixpoint oracle (tools/oracle.py requirements) recomputes the "
@@ -592,8 +594,7 @@ class C03(ResolveSpec):
             "empty lists; audit-as-crates-io) x 0-4 custom criteria with implications; non-trivial = some crate has a policy entry and "
             "some demand is neither empty nor the default; distinct = distinct (topo, roots, demand vector)")
     projection_doc = "topological order, roots, dev-only flags and the demand vector (criteria bitset per package)"
-    assumptions = ["topo_ok / roots_ok: evaluated by vm_compute on every case (not proved of depgraph_new)",
-                   "cargo's resolve graph has no cycle of normal/build edges"]
+    assumptions = ["cargo's resolve graph has no cycle of normal/build edges and its dependency ids resolve (hypothesis acyclic_in of the theorems)"]
     quick_n = 250
     thorough_n = 5000
 
